@@ -52,6 +52,7 @@ K_FMT_SUBSAT = 'C17/format/sub-satoshi-denominator-float-digits'
 K_SHARED_CODE = 'C17/parse/currency-code-shared-by-two-networks-refused'
 K_AUTO_ZERO = 'C17/format/auto-denominator-zero-amount-raises'
 K_FMT_FLOAT = 'C17/format/prefixed-denominator-float-digits-off-by-one'
+K_RT_SUBUNIT = 'C17/roundtrip/float-digits-below-the-unit-round-to-neighbour'
 K_ADD_VALUE = 'C17/add_output/value-object-truncated-to-whole-coins'
 K_OUT_FLOAT = 'C17/output/fractional-float-kept-and-truncated-in-raw'
 
@@ -394,9 +395,21 @@ def chk_format(case, col, tally=None):
     if sym == 'T' and ('T' + code).upper() in [c.upper() for c in CODES] and bnet in [nn for nn, c in NETCODES.items() if c.upper() == ('T' + code).upper()]:
         k = K_TERA
     elif sym not in ('', 'sat') and is_intlike(back) and abs(back - n) == 1 and n >= 2 ** 50 and bnet in networks_for(code):
-        plain = lib_parse('%s %s' % (render(n, 0), code))
-        if plain[0] == 'ok' and plain[1] == n:
-            k = K_FLOAT_PARSE
+        try:
+            if case.get('build') == 'den' and value_to_satoshi(Value.from_satoshi(n, network=net).str(den, dec)) == n:
+                k = K_FROMSAT          # ablation of the construction through from_satoshi(n, den)
+            elif amount == n:
+                # the text is exact, the parser is one unit off; ablation of the prefix: the plain coin unit parses exactly
+                plain = lib_parse('%s %s' % (render(n, 0), code))
+                if plain[0] == 'ok' and plain[1] == n:
+                    k = K_FLOAT_PARSE
+            elif amount.__floor__() <= back <= amount.__ceil__() and \
+                    value_to_satoshi(Value.from_satoshi(n, network=net).str(1, 8)) == n:
+                # the text carries wrong digits below the smallest unit (still less than one unit off) and the parser, correctly,
+                # rounds them to the neighbouring integer; ablation of the denominator: str(1, 8) round-trips
+                k = K_RT_SUBUNIT
+        except Exception:
+            pass
     col.violation(k, 'format -> parse: %d -> %r -> %r on %s' % (n, text, back, bnet), case, {'value': back, 'network': bnet}, n)
 
 
@@ -406,6 +419,10 @@ def chk_numeric(case, col, tally=None):
     from bitcoinlib.values import Value
     ktxt, sym, how, net = case['k'], case['sym'], case['as'], case.get('network', 'bitcoin')
     exact = exact_units(ktxt, sym)
+    if how == 'float' and len((ktxt.replace('.', '')).strip('0')) > 15:
+        # a literal with more than 15 significant digits is not identified by its double: the amount handed to the library is
+        # the binary value of the float, judged with the either-way rounding rule
+        exact = F(float(ktxt)) * F(10) ** (DEN_EXP[sym] - UNIT_EXP)
     whole = exact.denominator == 1
     cls = 'numeric/%s/%s' % (how, sym or 'unit')
     ident = ('numeric', mag_class(int(exact)), sym, how, net, whole)
@@ -415,7 +432,7 @@ def chk_numeric(case, col, tally=None):
         col.case(cls, nontrivial=ident, sample=case)
     col.probe('numeric_constructor')
     try:
-        k = int(ktxt) if how == 'int' else float(ktxt)
+        k = float(ktxt) if how == 'float' else int(ktxt)
         e = DEN_EXP[sym]
         den = sym if how != 'symnum' else (10 ** e if e >= 0 else float('1e%d' % e))
         if sym == '' and how != 'symnum':
@@ -532,7 +549,7 @@ def chk_output(case, col, tally=None):
     key = None
     if api == 'add_output' and spec['form'] == 'Value' and is_intlike(stored):
         coins = dec_fraction(spec['arg'][0]) * F(10) ** DEN_EXP[spec['arg'][1]]
-        if coins.denominator == 1 and coins - 1 <= stored <= coins and stored != exact and exact == coins * 10 ** 8:
+        if abs(stored - coins) <= 1 and stored != exact and exact == coins * 10 ** 8 and exact > 2 * (stored + 1):
             key = K_ADD_VALUE          # int(Value) = whole coins (float-truncated), placed as that many smallest units
     elif api in ('Output', 'Input') and spec['form'] in ('str', 'Value') and legit and is_intlike(stored) and abs(stored - exact) == 1 \
             and exact >= 2 ** 50 and spec['arg'][1] not in ('', 'sat') and (raw_amount is None or raw_amount == stored):
@@ -718,8 +735,8 @@ def gen_output(rnd):
         num = render(n, DEN_EXP[sym], rnd.choice(['min', 'full']))
         if rnd.random() < 0.15:
             num = '-' + num
-        elif rnd.random() < 0.1:
-            num = render(n, DEN_EXP[sym], 'min') + '5' if '.' in render(n, DEN_EXP[sym], 'full') and DEN_EXP[sym] >= -8 else num
+        elif rnd.random() < 0.1 and DEN_EXP[sym] > UNIT_EXP:
+            num = render(n, DEN_EXP[sym], 'full') + '5'          # half a unit more: a textual amount finer than the unit
         spec = {'form': rnd.choice(['str', 'Value']), 'arg': [num, sym]}
     return {'kind': 'output', 'api': api, 'value': spec, 'network': net}
 
